@@ -133,3 +133,20 @@ macro_rules! impl_cell_increment {
 }
 impl_cell_increment!(i32);
 impl_cell_increment!(usize);
+
+/// Verification-only knob (`--cfg cormacrelf_incremental_rs_verif`): makes the order in which
+/// update handlers of several observers / subscriptions of one node are called deterministic.
+/// `None` (default) keeps hash-map order; `Some(true)` = ascending ids, `Some(false)` = descending.
+#[cfg(cormacrelf_incremental_rs_verif)]
+pub mod verif_knobs {
+    use std::cell::Cell;
+    thread_local! {
+        static HANDLER_ORDER: Cell<Option<bool>> = Cell::new(None);
+    }
+    pub fn set_handler_order(ascending: Option<bool>) {
+        HANDLER_ORDER.with(|c| c.set(ascending));
+    }
+    pub fn handler_order() -> Option<bool> {
+        HANDLER_ORDER.with(|c| c.get())
+    }
+}
